@@ -3,6 +3,7 @@ C15 — pull-off: 3 s after Look To, or whenever the human treble actually goes.
 -/
 import Wheatley.Props.C11
 import Wheatley.Model.World
+import Wheatley.Lemmas.Outs
 namespace Wheatley.C15
 open Generated
 
@@ -121,7 +122,7 @@ theorem look_to_with_hold_up (w : World K) (wt : K → K) (callTime : K) (stage 
   intro w'
   have h3 : (Num.ofQ lookToDuration : K) = 3 := anchor_is_look_to_plus_3
   simp only [w', World.applyOut, hstub, hw]
-  generalize hw1 : ({ w with obs := _, rh := _, now := _ } : World K) = w1
+  generalize hw1 : ({ w with obs := _, rh := _, now := _, lastActivity := _ } : World K) = w1
   obtain ⟨hwait, hst, hbot, -, regf, hreg⟩ := withReg_wait w1
     (fun regf => w.rh.reg.initialiseLine regf stage false (callTime + Num.ofQ lookToDuration - wr.delay))
   have hd : World.delay (w1.withReg (fun regf => w.rh.reg.initialiseLine regf stage false
@@ -180,4 +181,77 @@ theorem first_strike_despite_hold_up (w : World K) (wt : K → K) (callTime : K)
   obtain ⟨hs, hd, hb, hst⟩ := look_to_with_hold_up w wt callTime stage n wr hstub hw
   exact wait_cancels_hold_up _ _ bell hand hst hs (by rw [hb]; exact hrow) (by rw [hb]; exact hplace)
     (by rw [hd]; exact hne) hnow
+/-! ### Look To handled on the socket thread while the main thread is held up -/
+
+omit [Field K] [LinearOrder K] [IsStrictOrderedRing K] in
+theorem WaitR.expect_delay (x : WaitR K) (bell : Nat) (hand : Bool) : (x.expect bell hand).delay = x.delay := by
+  unfold WaitR.expect WaitR.setExpected WaitR.setEarly
+  cases hand <;> cases x.currentHand <;> simp <;> split <;> rfl
+
+theorem applyOut_snrKind_keeps (wt : K → K) (ct : K) (w : World K) (o : Out) (h : o.snrKind = true) :
+    (World.applyOut wt ct w o).rh.reg.start = w.rh.reg.start ∧ (World.applyOut wt ct w o).delay = w.delay := by
+  unfold World.applyOut
+  cases o <;> simp [Out.snrKind] at h
+  · simp only []; split <;> exact ⟨rfl, rfl⟩
+  · simp only []; split
+    · exact ⟨rfl, rfl⟩
+    · refine ⟨rfl, ?_⟩
+      unfold World.delay
+      cases hw : w.rh.wait with
+      | none => simp
+      | some x => simp [WaitR.expect_delay]
+  · simp only []; split <;> exact ⟨rfl, rfl⟩
+
+theorem foldl_applyOut_snrKind_keeps (wt : K → K) (ct : K) (outs : List Out) :
+    ∀ (w : World K), (∀ o ∈ outs, o.snrKind = true) →
+      (outs.foldl (World.applyOut wt ct) w).rh.reg.start = w.rh.reg.start ∧
+      (outs.foldl (World.applyOut wt ct) w).delay = w.delay := by
+  induction outs with
+  | nil => intro w _; exact ⟨rfl, rfl⟩
+  | cons o rest ih =>
+    intro w h
+    have h1 := applyOut_snrKind_keeps wt ct w o (h o (by simp))
+    have h2 := ih (World.applyOut wt ct w o) (fun o' ho' => h o' (by simp [ho']))
+    simp only [List.foldl_cons]
+    exact ⟨h2.1.trans h1.1, h2.2.trans h1.2⟩
+
+/-- The rest of the Look To handler (generator swap, flags, first row, expectations) neither moves the
+line's start nor touches the hold-up. -/
+theorem lookToRest_keeps (wt : K → K) (w : World K) :
+    (w.lookToRest wt).rh.reg.start = w.rh.reg.start ∧ (w.lookToRest wt).delay = w.delay := by
+  unfold World.lookToRest
+  have hk := startNextRow_kinds w.bot.armLookTo true
+  have hf := foldl_applyOut_snrKind_keeps wt w.now (w.bot.armLookTo.startNextRow true).2
+    { w with bot := (w.bot.armLookTo.startNextRow true).1 } hk
+  simp only []
+  split
+  · exact hf
+  · exact hf
+
+theorem lookToInner_anchor (w : World K) (s : Susp K) (wr : WaitR K) (hw : w.rh.wait = some wr)
+    (hut : s.userTreble = false) :
+    (w.lookToInner s).rh.reg.start = .fin (s.callTime + 3 - wr.delay) ∧ (w.lookToInner s).delay = wr.delay := by
+  have h3 : (Num.ofQ lookToDuration : K) = 3 := anchor_is_look_to_plus_3
+  unfold World.lookToInner
+  simp only [hw, hut]
+  obtain ⟨hwait, -, -, -, regf, hreg⟩ := withReg_wait w
+    (fun regf => w.rh.reg.initialiseLine regf s.stage false (s.callTime + Num.ofQ lookToDuration - wr.delay))
+  constructor
+  · rw [hreg, wheatley_leads, h3]
+  · unfold World.delay; rw [hwait, hw]
+
+/-- **Look To while the main thread is held up.**  The handler sleeps 20 ms on the socket thread "to
+clear any current waiting loops"; the main thread leaves its hold-up meanwhile and books the time it
+waited.  When the handler wakes up, the line is anchored with the hold-up *as it is then*: in the inner
+rhythm's frame the start is `Look To + 3 − delay` for the very `delay` that every later wait uses, so
+(`wait_cancels_hold_up`) the interrupted hold-up does not leak into the new touch. -/
+theorem resume_anchors_with_current_hold_up (w : World K) (wt : K → K) (s : Susp K) (wr : WaitR K)
+    (hw : w.rh.wait = some wr) (hut : s.userTreble = false) :
+    (w.lookToResume wt s).rh.reg.start = .fin (s.callTime + 3 - (w.lookToResume wt s).delay) ∧
+    (w.lookToResume wt s).delay = wr.delay := by
+  unfold World.lookToResume
+  obtain ⟨h1, h2⟩ := lookToRest_keeps wt (({ w with suspended := none } : World K).lookToInner s)
+  obtain ⟨h3, h4⟩ := lookToInner_anchor ({ w with suspended := none } : World K) s wr hw hut
+  rw [h1, h2, h3, h4]
+  exact ⟨rfl, rfl⟩
 end Wheatley.C15
